@@ -176,8 +176,31 @@ def zip_members(b):
     return out
 
 
+def zip_regions(b):
+    """Offsets of structural fields of the FIRST member (the object file) and of the end record."""
+    eocd = b.rfind(b'PK\x05\x06')
+    cd = int.from_bytes(b[eocd + 16:eocd + 20], 'little')
+    return {
+        'lh_sig': 0, 'lh_flags': 6, 'lh_method': 8, 'lh_csize': 18, 'lh_namelen': 26, 'lh_name': 30,
+        'cd_sig': cd, 'cd_flags': cd + 8, 'cd_method': cd + 10, 'cd_crc': cd + 16, 'cd_csize': cd + 20,
+        'cd_usize': cd + 24, 'cd_namelen': cd + 28, 'cd_lho': cd + 42, 'cd_name': cd + 46,
+        'eocd_sig': eocd, 'eocd_count': eocd + 10, 'eocd_cdsize': eocd + 12, 'eocd_cdoff': eocd + 16,
+    }
+
+
 def damage(path, how):
-    if how.startswith('flip'):
+    if how.startswith('poke:'):
+        # overwrite a structural field of the archive (see zip_regions); 'poke:cd_flags:1' sets the "encrypted" bit
+        _, field, *rest = how.split(':')
+        b = bytearray(open(path, 'rb').read())
+        pos = zip_regions(bytes(b))[field]
+        if rest:
+            b[pos] ^= int(rest[0])
+        else:
+            for i in range(4 if field.endswith('_sig') else 1):
+                b[pos + i] = (b[pos + i] + 1) % 256
+        open(path, 'wb').write(bytes(b))
+    elif how.startswith('flip'):
         # change bytes IN PLACE inside the stored data of the largest member (the object file): file length,
         # zip directory and local headers stay valid.  how = flip<permille>[x<count>]
         spec = how[4:].split('x')
@@ -214,6 +237,13 @@ for _t, _h in (('res', 'overwrite'), ('res', 'delete'), ('pp', 'truncate'), ('pp
 for _pm in (5, 150, 300, 450, 600, 750, 900, 995):
     FAULTS['res_flip%d' % _pm] = ('res', 'flip%d' % _pm, False)
 FAULTS['res_flip500x4_restart'] = ('res', 'flip500x4', True)
+for _f in ('lh_sig', 'lh_flags', 'lh_method', 'lh_csize', 'lh_namelen', 'lh_name', 'cd_sig', 'cd_method', 'cd_crc',
+           'cd_csize', 'cd_usize', 'cd_namelen', 'cd_lho', 'cd_name', 'eocd_sig', 'eocd_count', 'eocd_cdsize',
+           'eocd_cdoff'):
+    FAULTS['res_poke_%s' % _f] = ('res', 'poke:%s' % _f, False)
+FAULTS['res_poke_cd_flags_encrypted'] = ('res', 'poke:cd_flags:1', False)
+FAULTS['res_poke_lh_flags_encrypted'] = ('res', 'poke:lh_flags:1', False)
+FAULTS['res_poke_lh_sig_restart'] = ('res', 'poke:lh_sig', True)
 FAULTS['both_truncate'] = ('both', 'truncate', False)
 FAULTS['cache_dir_removed'] = ('dir', 'removed', False)
 FAULTS['cache_dir_is_a_file'] = ('dir', 'file', False)
